@@ -8,6 +8,8 @@
 #include "kernel_ipc.h"
 #include <pmem.h>
 #include <pshm.h>
+/* access permission of every open is symbolic: ownership, naming, sizes, lock and clean-up must not depend on it */
+#define ND_PERM() (ND_BOOL() ? P_SHM_ACCESS_READWRITE : P_SHM_ACCESS_READONLY)
 #ifndef EINTR_MAX
 #define EINTR_MAX 2
 #endif
@@ -16,8 +18,8 @@ void vk_other(void) {}
 void harness(void) {
   vm_alloc_install();
   unsigned long sz = (unsigned long) ND_RANGE(1, VK_SEGMAX);
-  vk_cur = 0; PShm *p = p_shm_new("a", sz, P_SHM_ACCESS_READWRITE, NULL);
-  vk_cur = 1; PShm *q = p_shm_new("a", sz, P_SHM_ACCESS_READWRITE, NULL);
+  vk_cur = 0; PShm *p = p_shm_new("a", sz, ND_PERM(), NULL);
+  vk_cur = 1; PShm *q = p_shm_new("a", sz, ND_PERM(), NULL);
   VASSERT(p != NULL && q != NULL, "both processes attached");
   VASSUME(p != NULL && q != NULL);
   int so = vk_sem_linked(SEM_SLOT);
